@@ -588,8 +588,31 @@ example : replaceCol 1 [5] [[1, 2, 3], [10, 20, 30]] = none := by decide
 
 /-- **construction converts each column to its declared type or raises** — checked by the kernel over the
 whole dispatch table re-extracted from the running code on every run (every field kind × every argument
-form), except for the explicitly listed cells of the recorded findings (`knownUnconverted`). -/
+form). "Declared type" is per field kind (`allowedClasses`: an `int` field holds an integer array, a `float`
+field a float array, a `bool` field a bool array, ...). The cells that do neither are listed one by one as
+recorded findings: `knownDtypeKept` (a numeric field keeps another numeric dtype) and `knownUnconverted`
+(the argument is stored as it came); `construct_census` counts the groups and
+`construct_whitelists_tight` shows that no listed cell is stale. -/
 theorem construct_converts_or_raises : Gen.C19.constructTable.all constructCellOK = true := by decide +kernel
+
+/-- the census of the excepted cells: of the 230 cells, 20 keep another numeric dtype (`knownDtypeKept`) and 31 store
+the argument unconverted (`knownUnconverted`); the other 179 raise or hold exactly the declared class -/
+theorem construct_census :
+    let t := Gen.C19.constructTable
+    let conforms := t.filter (fun r => r.2.2 == "raise" || (allowedClasses r.1).contains r.2.2)
+    let kept := t.filter (fun r => r.2.2 != "raise" && !(allowedClasses r.1).contains r.2.2 && knownDtypeKept.contains r)
+    let unconv := t.filter (fun r => r.2.2 != "raise" && !(allowedClasses r.1).contains r.2.2 && !knownDtypeKept.contains r)
+    (t.length, conforms.length, kept.length, unconv.length) = (230, 179, 20, 31) := by
+  decide +kernel
+
+/-- the two lists of excepted cells are tight: every listed cell occurs in the table re-extracted from the running
+code and does there what the list says (stores that other numeric class / stores something that is neither the
+declared class nor a raise) - so repairing a finding without taking its cells off the list breaks the build -/
+theorem construct_whitelists_tight :
+    knownDtypeKept.all (fun c => Gen.C19.constructTable.contains c && !(allowedClasses c.1).contains c.2.2) = true ∧
+    knownUnconverted.all (fun kf => Gen.C19.constructTable.any (fun r =>
+      r.1 == kf.1 && r.2.1 == kf.2 && r.2.2 != "raise" && !(allowedClasses r.1).contains r.2.2 && !knownDtypeKept.contains r)) = true := by
+  decide +kernel
 
 /-- the table covers every field kind × every argument form it claims to (no cell silently missing) -/
 theorem construct_table_complete :
